@@ -479,6 +479,7 @@ func (m *InterpModel) Call(mc *Machine, st *State, call ssa.CallInstruction, cal
 	}
 	if m.MainMode {
 		e := m.ev(in, "call", append([]string{m.p.FuncKey(callee)}, argStrings(args)...), "")
+		e.KV["res"] = "r" + valName
 		var res AV = Sym("r" + valName)
 		if v, ok := call.(ssa.Value); ok {
 			if tup, ok := v.Type().(*types.Tuple); ok {
